@@ -87,63 +87,65 @@ _RE_PRINT = re.compile(r'^<<(".*)>>$')
 _RE_COV = re.compile(r"^<(\w+) line \d+, col \d+ to line \d+, col \d+ of module (\w+)>: (\d+):(\d+)", re.M)
 
 
+def _parse_value(s, i):
+    """Parse one TLC-printed value (string, number, TRUE/FALSE, tuple << .. >>) at s[i:], skipping whitespace/newlines.
+    Returns (value, next index) or raises ValueError."""
+    n = len(s)
+    while i < n and s[i] in " \t\r\n":
+        i += 1
+    if i >= n:
+        raise ValueError("eof")
+    if s.startswith("<<", i):
+        i += 2
+        out = []
+        while True:
+            while i < n and s[i] in " \t\r\n,":
+                i += 1
+            if s.startswith(">>", i):
+                return out, i + 2
+            v, i = _parse_value(s, i)
+            out.append(v)
+    if s[i] == '"':
+        j = i + 1
+        while j < n and s[j] != '"':
+            j += 2 if s[j] == "\\" else 1
+        if j >= n:
+            raise ValueError("unterminated string")
+        return json.loads(s[i:j + 1].replace("\n", "\\n")), j + 1
+    j = i
+    while j < n and s[j] not in ", \t\r\n>":
+        j += 1
+    tok = s[i:j]
+    if tok == "":
+        raise ValueError("empty token at %d" % i)
+    if tok in ("TRUE", "FALSE"):
+        return tok == "TRUE", j
+    try:
+        return int(tok), j
+    except ValueError:
+        return tok, j
+
+
 def _parse_tuple(line):
-    """Parse a TLC-printed tuple of strings / numbers / nested tuples, e.g. <<"CASE", "{..json..}">>, into a list."""
-    s = line.strip()
-    if not (s.startswith("<<") and s.endswith(">>")):
+    try:
+        v, _ = _parse_value(line, 0)
+        return v if isinstance(v, list) else None
+    except Exception:
         return None
-    body = s[2:-2]
-    out, i, n = [], 0, len(body)
-    while i < n:
-        c = body[i]
-        if c in " ,":
-            i += 1
+
+
+def parse_printed_tuples(out):
+    """All tuples that TLC printed at the start of a line whose first element is a string tag.  TLC pretty-prints long tuples
+    over several lines (<< "BAD",\n   "case", ... >>), so this scans the whole output, not single lines."""
+    res = []
+    for m in re.finditer(r'^<<\s*"', out, re.M):
+        try:
+            v, _ = _parse_value(out, m.start())
+        except Exception:
             continue
-        if c == '"':
-            j = i + 1
-            while j < n:
-                if body[j] == "\\":
-                    j += 2
-                    continue
-                if body[j] == '"':
-                    break
-                j += 1
-            try:
-                out.append(json.loads(body[i:j + 1]))
-            except Exception:
-                return None
-            i = j + 1
-        elif body.startswith("<<", i):
-            depth, j = 0, i
-            while j < n:
-                if body.startswith("<<", j):
-                    depth += 1
-                    j += 2
-                    continue
-                if body.startswith(">>", j):
-                    depth -= 1
-                    j += 2
-                    if depth == 0:
-                        break
-                    continue
-                if body[j] == '"':
-                    j += 1
-                    while j < n and body[j] != '"':
-                        j += 2 if body[j] == "\\" else 1
-                j += 1
-            out.append(_parse_tuple(body[i:j]))
-            i = j
-        else:
-            j = i
-            while j < n and body[j] not in ",":
-                j += 1
-            tok = body[i:j].strip()
-            try:
-                out.append(int(tok))
-            except ValueError:
-                out.append(tok)
-            i = j
-    return out
+        if isinstance(v, list) and v and isinstance(v[0], str):
+            res.append(v)
+    return res
 
 
 def tlc(module, cfg, *, files=None, workers=None, timeout=900, simulate=None, depth=None, seed=None,
@@ -211,11 +213,7 @@ def tlc(module, cfg, *, files=None, workers=None, timeout=900, simulate=None, de
     m = _RE_DEPTH.search(out)
     if m:
         r.depth = int(m.group(1))
-    for line in out.splitlines():
-        if line.startswith("<<\""):
-            t = _parse_tuple(line)
-            if t is not None:
-                r.printed.append(t)
+    r.printed = parse_printed_tuples(out)
     if coverage:
         for m in _RE_COV.finditer(out):
             r.coverage[m.group(1)] = (int(m.group(3)), int(m.group(4)))
